@@ -421,9 +421,11 @@ def wrappers(ctx):
     site = NODE + ".reset"
     node = P("node")
     mu = [e for e in tr2.of("localmut") if e.name == "node" and len(e.stack) == 1]
+    rc = rec_calls(tr2, site)
+    if not ctx.anchor(site, "reset descends by recursion into both children", len(rc) == 2, "found %d recursive calls" % len(rc)):
+        rc = []
     ok = len(mu) == 1 and mu[0].value == P("value") and mu[0].path == (("attr", "num_samples_in_compared_subtrees"), ("item", P("tree_id")))
     ctx.ob("FRM", site, "the count of the id is set to the value at this node", ok, "", mu[0] if mu else None)
-    rc = rec_calls(tr2, site)
     kids = set()
     for e in rc:
         a0 = q.unmut(e.args[0]).single_atom() if e.args else None
